@@ -71,7 +71,7 @@ ATTRS = ["disable", "fixable", "indent_size", "phase", "severity", "case", "zzz_
 class K12a(Harness):
     name = "K12a"
     prop = "C12"
-    props = ("C12", "C03")
+    props = ("C12", "C03", "C13")
     title = "the effective value of a rule attribute is the value at the most specific configuration level that mentions it (file_rules > file_list > rule > group > global > default)"
     functions = ("vsg.rule", "vsg.rule_list", "vsg.apply_rules", "vsg.severity", "vsg.config", "vsg.utils")
     stubs = ("rule_list constructor bypassed (two hand-made rules instead of the ~1000 shipped ones)", "configuration dictionaries are built directly (no YAML/JSON text)")
@@ -272,5 +272,51 @@ class K12d(Harness):
         if "fixed" in p:
             return {"name": p["fixed"], "where": p["where"]}
         return {"name": "".join(chr(values.get("name[%d]" % i, 97)) for i in range(p["N"])), "where": p["where"]}
+
+    signature = staticmethod(_sig)
+
+
+@register
+class K12e(Harness):
+    name = "K12e"
+    prop = "C12"
+    props = ("C12", "C15")
+    title = "config.New is a function of its arguments: building a configuration with a -c file leaves nothing behind for the next build in the same process"
+    functions = ("vsg.config", "vsg.severity")
+    stubs = ("open_configuration_file returns a dictionary with symbolic values for the two fake -c file names; the predefined style files are read for real",)
+    bounds = "styles {none, jcl, indent_only}; a -c file setting disable (symbolic bool) and indent_size (symbolic 0..9) for one rule and a user-defined severity; three builds: without, with, without"
+    outside = "other keys of the configuration file"
+    exception_props = ("C12", "C19")
+
+    def params(self, tier):
+        return [{"style": s} for s in (None, "jcl", "indent_only")]
+
+    def run(self, eng, p):
+        import copy
+
+        from .lfam import CLA
+
+        real_open = config.open_configuration_file
+        fileA = {"rule": {"signal_004": {"disable": eng.bool("disable"), "indent_size": eng.int("indent_size", 0, 9)}, "global": {"fixable": eng.bool("fixable")}},
+                 "severity": {"Custom": {"type": "error"}}, "skip_phase": [7]}
+
+        def fake_open(name, junit=None):
+            if name == "A.yaml":
+                return copy.deepcopy(fileA) if False else fileA
+            return real_open(name, junit)
+
+        config.open_configuration_file = fake_open
+        try:
+            c0 = config.New(CLA(style=p["style"]))
+            base = copy.deepcopy({k: v for k, v in c0.dConfig.items() if k != "pragma"})
+            sev0 = [s.name for s in c0.severity_list.get_severities()]
+            c1 = config.New(CLA(style=p["style"], configuration=["A.yaml"]))
+            c2 = config.New(CLA(style=p["style"]))
+        finally:
+            config.open_configuration_file = real_open
+        got = {k: v for k, v in c2.dConfig.items() if k != "pragma"}
+        clauses = [("later_build_unaffected", core.Eq(got, base)), ("severities_unaffected", [s.name for s in c2.severity_list.get_severities()] == sev0),
+                   ("file_applied", core.Eq(c1.dConfig["rule"]["signal_004"]["disable"], fileA["rule"]["signal_004"]["disable"]))]
+        return clauses
 
     signature = staticmethod(_sig)
